@@ -898,6 +898,70 @@ def check_save_load(ctx: Ctx, tier: str):
 # --------------------------------------------------------------------------------------------
 
 
+def check_extra_inverses(ctx: Ctx, n: int):
+    """two inverse pairs outside the step machinery, against direct numpy references:
+    * expand twice, then combine_axes / merge_axes over THREE axes restores the block;
+    * to_vector(from_vector(v, template)) == v for real-valued v whatever the dtype of the template's blocks
+      (from_vector takes shape and type layout from the template, the numbers from v)."""
+    import jax.numpy as jnp
+    import ginjax.geometric as geom
+
+    rng = ctx.rng
+    for it in range(n):
+        d = int(rng.choice([1, 2, 3]))
+        types = [(0, 0), (0, 1)] if d == 1 else [(0, 0), (1, 0), (0, 1), (2, 0), (1, 1)]
+        keys = [types[i] for i in rng.permutation(len(types))[: int(rng.integers(1, 4))]]
+        spatial = tuple(int(v) for v in rng.permutation([2, 3, 5])[:d])
+        a, b, c = (int(v) for v in rng.permutation([2, 3, 4]))
+        lead_pre = () if it % 2 else (2,)
+        ax = len(lead_pre)
+        blocks = {}
+        for i, (k, p) in enumerate(keys):
+            shape = lead_pre + (a * b * c,) + spatial + (d,) * k
+            blocks[(k, p)] = (np.arange(int(np.prod(shape)), dtype=np.float32) + 1000 * i).reshape(shape)
+        m = geom.MultiImage({kp: jnp.asarray(v) for kp, v in blocks.items()}, d)
+        case = {"part": "three-axis combine/merge", "D": d, "keys": [list(kp) for kp in keys], "spatial": list(spatial),
+                "leading": list(lead_pre) + [a * b * c], "split": [a, b, c], "axis": ax}
+        ctx.case(("combine3", it, case), True, sample=case if it == 0 else None)
+        ctx.hist("extra_inverse", "combine/merge over 3 axes")
+        try:
+            e2 = m.expand(ax, b * c).expand(ax + 1, c)
+            back1 = e2.combine_axes((ax, ax + 1, ax + 2))
+            back2 = e2.merge_axes((ax, ax + 1, ax + 2))
+            ok = all(tuple(e2[kp].shape) == lead_pre + (a, b, c) + spatial + (d,) * kp[0] for kp in keys)
+            for back in (back1, back2):
+                ok = ok and list(back.keys()) == keys and all(
+                    back[kp].shape == blocks[kp].shape and np.array_equal(np.asarray(back[kp]), blocks[kp]) for kp in keys)
+        except Exception as e:
+            case["raised"] = repr(e)[:300]
+            ok = False
+        if not ok:
+            ctx.violation("oracle", "expand twice then combine_axes / merge_axes over three axes does not restore the multi image", case)
+        # from_vector with templates of another dtype
+        tdtype = [jnp.int32, jnp.float16, jnp.float32][it % 3]
+        tmpl = geom.MultiImage({kp: jnp.zeros(v.shape, dtype=tdtype) for kp, v in blocks.items()}, d)
+        size = sum(v.size for v in blocks.values())
+        v = (rng.integers(-40, 41, size=size).astype(np.float32)) / 4.0
+        case2 = {"part": "from_vector with a template of dtype " + str(jnp.dtype(tdtype)), "D": d,
+                 "keys": [list(kp) for kp in keys], "shapes": [list(blocks[kp].shape) for kp in keys]}
+        ctx.case(("from_vector_dtype", it, case2), True)
+        ctx.hist("extra_inverse", "from_vector template dtype " + str(jnp.dtype(tdtype)))
+        try:
+            out = geom.MultiImage.from_vector(jnp.asarray(v), tmpl)
+            back = np.asarray(out.to_vector(), dtype=np.float32)
+            ok2 = list(out.keys()) == keys and back.shape == v.shape and np.array_equal(back, v)
+            off = 0
+            for kp in keys:
+                n_el = blocks[kp].size
+                ok2 = ok2 and np.array_equal(np.asarray(out[kp], dtype=np.float32), v[off:off + n_el].reshape(blocks[kp].shape))
+                off += n_el
+        except Exception as e:
+            case2["raised"] = repr(e)[:300]
+            ok2 = False
+        if not ok2:
+            ctx.violation("oracle", "to_vector(from_vector(v, template)) != v (the template only provides the layout)", case2)
+
+
 def run(ctx: Ctx):
     import ginjax.geometric as geom
 
@@ -936,6 +1000,7 @@ def run(ctx: Ctx):
     check_images_direction(ctx, run_, 30 if quick else 300)
     n = check_chains(ctx, run_, 220 if quick else 3000, 4 if quick else 8)
     t2 = time.time()
+    check_extra_inverses(ctx, 12 if ctx.tier == "quick" else 120)
     check_save_load(ctx, ctx.tier)
     t3 = time.time()
     ctx.notes["timing_s"] = {"pairs": round(t1 - t0, 1), "images+chains": round(t2 - t1, 1),
